@@ -14,4 +14,4 @@ for P in "$@"; do
 done
 rm -rf $M
 # the translators rewrote lean/AldorVerif/Gen from the mutated tree: restore the committed snapshot
-( cd /verif && git checkout -- lean/AldorVerif/Gen 2>/dev/null )
+( cd /verif && git checkout -- lean/AldorVerif/Gen lean/AldorVerif/Props/C04Gen1.lean lean/AldorVerif/Props/C04Gen2.lean lean/AldorVerif/Props/C04Gen3.lean lean/AldorVerif/Props/C04Gen4.lean 2>/dev/null )
